@@ -30,8 +30,11 @@ Definition whiten_exponent (alpha : F) : F := fdiv K (fsub K alpha (fofZ K 1%Z))
 Definition whiten_is_identity (alpha eps : F) : bool := negb (fleb K eps (fsub K (fofZ K 1%Z) alpha)).
 (* constructor guard: alpha < 0 is rejected (there is no upper bound) *)
 Definition whiten_rejects (alpha : F) : bool := negb (fleb K (fofZ K 0%Z) alpha).
-(* is_above_zero = s > np.finfo(s.dtype).eps *)
-Definition whiten_keep (s eps : F) : bool := negb (fleb K s eps).
+(* is_above_zero = s > <threshold>; the threshold is np.finfo(s.dtype).eps in absolute terms (relative = false), or, in the
+   scale-invariant variant, eps * C.shape[0] * s.max() (relative = true); which one the source uses is read off by the translator *)
+Definition whiten_keep (s thr : F) : bool := negb (fleb K s thr).
+Definition whiten_threshold (relative : bool) (eps : F) (p : nat) (smax : F) : F :=
+  if relative then fmul K (fmul K eps (fofZ K (Z.of_nat p))) smax else eps.
 
 Fixpoint fpow (x : F) (e : nat) : F := match e with O => f1 K | S e' => fmul K x (fpow x e') end.
 
@@ -47,11 +50,11 @@ Definition sandwich (p : nat) (V : mat) (a : vec) : mat :=
 
 (* dropping the columns of V whose singular value is not above eps is the same matrix
    product as zeroing the corresponding diagonal entries *)
-Definition whiten_mask (p : nat) (eps : F) (lam a : vec) : vec :=
-  vtab p (fun i => if whiten_keep (vget K lam i) eps then vget K a i else f0 K).
+Definition whiten_mask (p : nat) (thr : F) (lam a : vec) : vec :=
+  vtab p (fun i => if whiten_keep (vget K lam i) thr then vget K a i else f0 K).
 
-Definition whiten_T (p : nat) (eps : F) (V : mat) (lam d : vec) : mat := sandwich p V (whiten_mask p eps lam d).
-Definition whiten_Tinv (p : nat) (eps : F) (V : mat) (lam dinv : vec) : mat := sandwich p V (whiten_mask p eps lam dinv).
+Definition whiten_T (p : nat) (thr : F) (V : mat) (lam d : vec) : mat := sandwich p V (whiten_mask p thr lam d).
+Definition whiten_Tinv (p : nat) (thr : F) (V : mat) (lam dinv : vec) : mat := sandwich p V (whiten_mask p thr lam dinv).
 
 (* eigenvalues of the covariance of the whitened data: d_i^2 lam_i *)
 Definition whitened_eigs (p : nat) (lam d : vec) : vec :=
@@ -66,9 +69,9 @@ Definition whiten_inverse_components (p m : nat) (Tinv P : mat) : mat := mmul K 
 (* the fitted object: for alpha = 1 the source stores the scalar 1 and every map returns its argument *)
 Record whitener := mkW { w_identity : bool; w_T : mat; w_Tinv : mat }.
 
-Definition whiten_fit (p : nat) (alpha eps : F) (V : mat) (lam d dinv : vec) : whitener :=
+Definition whiten_fit (p : nat) (alpha eps thr : F) (V : mat) (lam d dinv : vec) : whitener :=
   if whiten_is_identity alpha eps then mkW true [[f1 K]] [[f1 K]]
-  else mkW false (whiten_T p eps V lam d) (whiten_Tinv p eps V lam dinv).
+  else mkW false (whiten_T p thr V lam d) (whiten_Tinv p thr V lam dinv).
 
 Definition w_transform (n p : nat) (w : whitener) (X : mat) : mat :=
   if w_identity w then X else whiten_transform n p (w_T w) X.
